@@ -431,7 +431,12 @@ pub fn i128_shifted_div_mod_floor(
     let mut q = xl as i128;
     // r < y, so r as i128 is safe.
     let mut r = r as i128;
-    if x.is_negative() {
+    if r == 0 {
+        // exact division: no adjustment to floor needed
+        if x.is_negative() != y.is_negative() {
+            q = q.neg();
+        }
+    } else if x.is_negative() {
         if y.is_negative() {
             r = r.neg();
         } else {
@@ -468,8 +473,13 @@ pub fn i256_div_mod_floor(
     // r < y, so r as i128 is safe.
     let mut r = r as i128;
     if x1.is_negative() != x2.is_negative() {
-        q = q.neg() - 1;
-        r = y - r;
+        if r == 0 {
+            // exact division: no adjustment to floor needed
+            q = q.neg();
+        } else {
+            q = q.neg() - 1;
+            r = y - r;
+        }
     }
     Some((q, r))
 }
